@@ -165,7 +165,31 @@ def ruleRun (inst : List (String × V)) (p : PyExpr) : Outcome :=
   | some v => if v.truthy then .returns v else .assertionError
   | none => .raises
 
+/-! ## REPEAT with an increment control (`LOOPpyout`): `for i in range(a, <stop>, s)` -/
+
+/-- the stop value `LOOPpyout` writes for `REPEAT i := a TO b BY s`: the bound itself, or — regenerated
+`repeatBoundInclusive` (fixes/C18-20) — `(b) + (1 if (s) > 0 else -1)` -/
+def stopWritten (b s : Int) : Int := if repeatBoundInclusive then b + (if s > 0 then 1 else -1) else b
+
+/-- Python's `range(start, stop, step)` as the values it yields, in order: `start, start + step, …` while the value is
+below `stop` (step > 0) / above `stop` (step < 0); at most `fuel` values -/
+def pyRange : Nat → Int → Int → Int → List Int
+  | 0, _, _, _ => []
+  | f + 1, i, stop, step =>
+    if (step > 0 ∧ i < stop) ∨ (step < 0 ∧ i > stop) then i :: pyRange f (i + step) stop step else []
+
 end StepModel.GenPy.Body
+
+namespace StepModel.GenPy.Spec.Body
+
+/-- ISO 10303-11 13.9.1: the values the loop variable of `REPEAT i := a TO b BY s` takes, in order: the loop ends as soon
+as the variable is above the bound (s > 0) / below it (s < 0); at most `fuel` values -/
+def repeatValues : Nat → Int → Int → Int → List Int
+  | 0, _, _, _ => []
+  | f + 1, i, bound, step =>
+    if (step > 0 ∧ i > bound) ∨ (step < 0 ∧ i < bound) then [] else i :: repeatValues f (i + step) bound step
+
+end StepModel.GenPy.Spec.Body
 
 namespace StepModel.GenPy.Spec.Body
 open StepModel.GenPy.Body
